@@ -25,7 +25,22 @@ import logging
 import warnings
 
 warnings.simplefilter("ignore")
-logging.disable(logging.CRITICAL)
+HOSTILE = bool(os.environ.get("VERIF_HOSTILE"))
+if HOSTILE:
+    # second pass ("hostile environment", see run_check.hostile_pass): every logger enabled down to DEBUG with a handler that formats
+    # each record (so that arguments of debug lines are evaluated) and throws the text away
+    class _FormatAndDrop(logging.Handler):
+        def emit(self, record):
+            try:
+                self.format(record)
+            except Exception:  # noqa: BLE001  (logging never raises into the caller, as with stock handlers)
+                pass
+
+    logging.disable(logging.NOTSET)
+    logging.root.handlers[:] = [_FormatAndDrop()]
+    logging.root.setLevel(logging.DEBUG)
+else:
+    logging.disable(logging.CRITICAL)
 
 
 def seed() -> int:
